@@ -276,6 +276,10 @@ def run(ctx):
         ctx.mc("mc-gcdext-" + nm, SPEC, "GcdExtAlg.tla", xcfg, workers=4, timeout=3000)
     pcfg = fw.write_cfg(ctx.path("MC_GcdExtAlg_prim.cfg"), spec="PrimSpec", invariants=["PrimOK"], constants={"W": ctx.pick(7, 9), "XMax": 0, "YStride": 1, "Dword": "FALSE"})
     ctx.mc("mc-gcdext-prim", SPEC, "GcdExtAlg.tla", pcfg, workers=4, timeout=2400)
+    # Newton's iteration of nth_root (n >= 3) and the repeated-squares schedule of UBig::remove, every operand of the scope
+    rcfg = fw.write_cfg(ctx.path("MC_RootRemoveAlg.cfg"), invariants=["RootOK", "RemoveOK"],
+                        constants={"MaxN": ctx.pick(20000, 70000), "MaxRootN": ctx.pick(16, 18), "MaxX": ctx.pick(6000, 20000), "MaxF": ctx.pick(30, 40)})
+    ctx.mc("mc-rootremove", SPEC, "RootRemoveAlg.tla", rcfg, workers=4, timeout=2400)
 
     # 2. spec -> impl: the partition enumerated by TLC
     step16 = ctx.pick(32, 1)
